@@ -817,3 +817,39 @@ def c12_iban(cc, bban):
     elif x.bic is not None:
         return "bic none"
     return _c12_check_pair(BIC, banks, cc, key) or "ok"
+
+
+def c13_random(cc, use_registry, pins):
+    """real IBAN.random over 300 seeds: valid, right country, pins read back, reproducible per seed,
+    registry draws (no pinned bank/branch) belong to a listed bank when every entry of the country has a code"""
+    from random import Random
+
+    import schwifty
+    from schwifty.exceptions import GenerateRandomOverflowError
+    from spec import registry_ref as R
+    from spec import table
+
+    idx = R.by_code(table.banks(), True)
+    for seed in range(300):
+        try:
+            x = schwifty.IBAN.random(cc, random=Random(seed), use_registry=use_registry, **pins)
+            y = schwifty.IBAN.random(cc, random=Random(seed), use_registry=use_registry, **pins)
+        except GenerateRandomOverflowError:
+            continue
+        if x != y:
+            return "not reproducible"
+        x.validate()
+        if cc and x.country_code != cc:
+            return "country"
+        for k, v in pins.items():
+            if getattr(x, k) != v:
+                return f"pin {k} seed {seed}"
+        c = x.country_code
+        entries = [e for e in table.banks() if e.get("country_code") == c]
+        if use_registry and entries and all(e.get("bank_code") for e in entries) and not ({"bank_code", "branch_code"} & set(pins)):
+            ref = table.countries()[c]
+            pos = table.positions(c)
+            key = "".join(str(x.bban)[pos[f][0] : pos[f][1]] for f in ref.get("bic_lookup_components", ["bank_code"]) if f in pos)
+            if (c, key) not in idx:
+                return f"unlisted bank seed {seed}"
+    return "ok"
